@@ -85,6 +85,8 @@ struct C06 : Prop {
 		J se;
 		if (normal) {
 			cfg::World w = cfg::gen_world(r, 3, 2);
+			// Secure-ACK boards are frequent: their reports are answered by the receiver itself (mirror) AND handed to the application
+			for (auto &b : w.boards) { bool has = false; for (auto &f : b.features) if (f.first == 0x03) has = true; if (!has && r.chance(500)) b.features.push_back({0x03, (uint8_t) r.range(1, 200)}); }
 			cfg::install(plan, w, r);
 			se = cfg::normal_session(0, r.chance(500) ? 0 : (int) r.range(5, 50));
 			for (auto &b : w.boards) if (b.present) addrs.push_back(b.addr);
@@ -117,6 +119,7 @@ struct C06 : Prop {
 				if (burst && r.chance(930)) type = burst_type;
 				else { do { type = r.chance(850) ? (uint8_t) (0x80 | r.below(128)) : r.byte(); } while (type == MSG_STALL && r.chance(900)); }
 				if (normal && (type == MSG_NODE_LOST || type == MSG_NODE_NEW) && r.chance(800)) type = MSG_SYS_PONG;
+				if (normal && !burst && r.chance(120)) type = MSG_BM_POSITION;
 				J e = J::obj();
 				t += burst ? (int) r.range(0, 300) : (int) r.range(0, 5000);
 				e.set("at_us", t); e.set("node", pc::jaddr(addrs[r.below(addrs.size())]));
@@ -138,7 +141,8 @@ struct C06 : Prop {
 				for (int i = 0; i < no; i++) {
 					uint64_t x = r.below(100);
 					J o = J::obj();
-					if (x < 25) { o.set("op", "sleep"); o.set("us", (int) r.range(100, 20000)); }
+					if (x < 12) { o.set("op", "sleep"); o.set("us", (int) r.range(100, 20000)); }
+					else if (x < 25) { o.set("op", "sleep"); o.set("us", (int) r.range(1, 2) * 5000); }
 					else if (x < 75) o.set("op", "read");
 					else if (x < 90) o.set("op", "read_err");
 					else o.set("op", "read_intern");
